@@ -250,7 +250,44 @@ def _mask_get(a: SymArray, mask: SymArray):
 
     out = SymArray(shape, get, a._dtype)
     out.from_mask = (mask, ms)
+    _row_selection_lemma(a, mask, ms, out)
     return out
+
+
+def _row_selection_lemma(a, mask, ms_rows, out):
+    """Counting lemma (assumed, DESIGN 4.3): if R = M[F] with F = M.any(over the trailing axes), i.e. only
+    rows that are entirely False are dropped, then R and M have the same True entries in the same
+    row-major order: K(R) = K(M) and the p-th True of R is (rank_F(s), c) for the p-th True (s, c) of M."""
+    prov = getattr(mask, "any_of", None)
+    if prov is None or a._dtype != "bool":
+        return
+    src, red = prov
+    if getattr(src, "_mask_identity", src) is not getattr(a, "_mask_identity", a):
+        return
+    r = mask.ndim
+    if tuple(red) != tuple(range(r, a.ndim)):
+        return
+    ctx = cur()
+    msM = mask_selector(a)
+    msR = mask_selector(out)
+    out._mask_identity = out
+    p = z3.Int(ctx.fresh("rowsel.p"))
+    selM, selR = msM.sel(p), msR.sel(p)
+    from .stubs.jnp_impl import _forall
+    from .values import rowmajor
+
+    N = rowmajor(a.zshape).N
+    body = z3.Implies(
+        z3.And(p >= 0, p < msM.K),
+        z3.And(
+            mask.get(tuple(selM[:r])),  # the row of a True entry is a row with some True entry
+            selR[0] == ms_rows.rank(selM[:r]),
+            *[selR[1 + q] == selM[r + q] for q in range(a.ndim - r)],
+        ),
+    )
+    ctx.assume(msR.K == msM.K, tag="counting-lemma")
+    ctx.assume(_forall([p], body, patterns=[z3.MultiPattern(*selM)] if len(selM) > 1 else [selM[0]], dims=[N]), tag="counting-lemma")
+    ctx.trusted.add("counting lemma (assumed; cross-checked natively): dropping all-False rows preserves the row-major enumeration of True entries")
 
 
 # ----------------------------------------------------------------------------- setitem (numpy arrays only)
